@@ -136,6 +136,7 @@ def run(ctx):
     check_gbp_sets(ctx)
     check_saturated_sets(ctx)
     check_skipped_messages(ctx)
+    check_region_names(ctx)
     check_call_local_caches(ctx, [gbp, lbp, cm, repo.nfunc(RG, 'RegionGraph.hazan_peng_shashua')])
     ctx.floor('exp sites', sum(1 for o in ctx.obligations if o.rule == 'exp-normalised'), 2)
 
@@ -550,6 +551,37 @@ def check_gbp_sets(ctx):
     ctx.ob('gbp-message-sets', fi, Nd[4], Nd[3] != Dd[3],
            'N is built around the sending region and D around the receiving region of a message (different index positions)',
            construct='centres of N and D')
+
+
+def check_region_names(ctx):
+    """build_graph closes the cliques under intersection; every new region is named by the SORTED tuple of its attributes, so that one attribute set
+    has one name whichever pair of regions produced it (regions are dictionary keys and graph nodes).  A name in the order of one of the two
+    operands makes ('B','C') and ('C','B') two regions: the separator is counted twice and the region graph gets a cycle."""
+    fi = ctx.repo.func(RG, 'RegionGraph.build_graph')
+    added = set()
+    Rs = {a.targets[0].id for a in ast.walk(fi.node) if isinstance(a, ast.Assign) and len(a.targets) == 1 and isinstance(a.targets[0], ast.Name)
+          and U(a.value).replace(' ', '') in ('set(self.cliques)', 'set(cliques)')}
+    for c in ast.walk(fi.node):
+        if isinstance(c, ast.Call) and isinstance(c.func, ast.Attribute) and c.func.attr in ('update', 'add') and U(c.func.value) in Rs and c.args:
+            a = c.args[0]
+            if isinstance(a, ast.Set) and len(a.elts) == 1:
+                a = a.elts[0]
+            if isinstance(a, ast.Name):
+                added.add(a.id)
+    n = 0
+    for z in sorted(added):
+        for a in ast.walk(fi.node):
+            if isinstance(a, ast.Assign) and len(a.targets) == 1 and U(a.targets[0]) == z:
+                t = U(a.value).replace(' ', '')
+                canon = re.fullmatch(r'tuple\(sorted\(.+\)\)', t) or re.fullmatch(r'tuple\(\(?(\w+)for\1insorted\(.+\)if.+\)?\)', t)
+                operand = re.fullmatch(r'tuple\(\(?(\w+)for\1in(\w+)if.+\)?\)', t)
+                if not canon and not operand:
+                    raise AnalysisError('build_graph: new region named `%s`, which is in no recognised form' % U(a.value)[:60])
+                n += 1
+                ctx.ob('region-structure', fi, a, bool(canon), 'a new region is named by the sorted tuple of its attributes; named `%s`%s' % (U(a.value)[:60], '' if canon else
+                       ' - in the attribute order of the operand `%s`: the same attribute set gets one name per spelling' % operand.group(2)),
+                       construct='name of an intersection region')
+    ctx.floor('names of intersection regions', n, 1)
 
 
 def check_skipped_messages(ctx):
